@@ -59,7 +59,7 @@ VARIABLES l,        \* line being processed
           ncomp,    \* completions so far in this file (mode "fixed")
           fed, deliv,
           mode, minimal, c1, nxt, fin,
-          lostSeen, \* a packet that was serialized but never handed out has been passed in this run
+          lostSeen, \* "" or the call that serialized a packet and never handed it out (first such call of this run)
           tx        \* the library serializer's header memory as the transcribed policy (LibCsid / LibFmt) predicts it
 
 vars == <<l, cur, rx, pm, pdone, woff, ncomp, fed, deliv, mode, minimal, c1, nxt, fin, lostSeen, tx>>
@@ -68,7 +68,7 @@ Ev == Rec[l]
 
 Init == /\ l = 1 /\ cur = Start /\ rx = RxInit(128) /\ pm = NoFn /\ pdone = 0 /\ woff = 0
         /\ ncomp = 0 /\ fed = 0 /\ deliv = 0 /\ mode = "fixed" /\ minimal = TRUE /\ c1 = 0
-        /\ nxt = NRec + 1 /\ fin = FALSE /\ lostSeen = FALSE /\ tx = NoFn
+        /\ nxt = NRec + 1 /\ fin = FALSE /\ lostSeen = "" /\ tx = NoFn
 
 \* ---- STRICT / drift diagnostics: is the library still following the compression policy that MC_Chunk's
 \* "lib" configuration model-checks?  (class DRIFT: reported as spec_drift, never a violation)
@@ -81,13 +81,14 @@ TxAfter == IF IsWire(l) /\ Ev.ev = "Ser" /\ Ev.res = "ok" /\ Ev.len <= 16777215
 \* abandon the run with a verdict
 Fail(class, why) ==
     /\ PrintT("@@VERDICT|" \o class \o "|" \o why
-                \o (IF lostSeen THEN " [after a packet serialized in a failed call was discarded]" ELSE "")
+                \o (IF lostSeen # "" THEN " [after a packet serialized in a failed " \o lostSeen \o " call was discarded]" ELSE "")
                 \o "|" \o ToString(l))
     /\ l' = nxt /\ cur' = Start /\ pdone' = 0
     /\ UNCHANGED <<rx, pm, woff, ncomp, fed, deliv, mode, minimal, c1, nxt, fin, lostSeen, tx>>
 
 Skip == /\ l' = l + 1 /\ cur' = Start /\ pdone' = 0
-        /\ lostSeen' = (lostSeen \/ (IsWire(l) /\ Ev.omit /\ "lost" \in DOMAIN Ev))
+        /\ lostSeen' = (IF lostSeen # "" THEN lostSeen
+                        ELSE IF IsWire(l) /\ Ev.omit /\ "lost" \in DOMAIN Ev THEN Ev.lost ELSE "")
         /\ tx' = TxAfter
         /\ UNCHANGED <<rx, pm, woff, ncomp, fed, deliv, mode, minimal, c1, nxt, fin>>
 
@@ -97,7 +98,7 @@ DoReset ==
     /\ mode' = Ev.mode /\ minimal' = Ev.minimal /\ c1' = Ev.c1 /\ nxt' = Ev.next
     /\ ncomp' = IF Ev.mode = "fixed" THEN Ev.c0 ELSE ncomp
     /\ deliv' = IF Ev.mode = "fixed" THEN Ev.c0 ELSE deliv
-    /\ lostSeen' = FALSE /\ tx' = NoFn
+    /\ lostSeen' = "" /\ tx' = NoFn
     /\ UNCHANGED fin
 
 MaxLen == 16777215
